@@ -26,6 +26,8 @@ pub struct C12 {
 	scanned_msgs: usize,
 	pw_changes: BTreeMap<usize, String>,
 	lifecycle_done: u32,
+	/// every password each wallet's seed file was ever saved under
+	pw_hist: BTreeMap<usize, Vec<String>>,
 	test_nonce_pub: String,
 	reported: std::collections::BTreeSet<String>,
 }
@@ -133,6 +135,7 @@ impl C12 {
 			scanned_msgs: 0,
 			pw_changes: BTreeMap::new(),
 			lifecycle_done: 0,
+			pw_hist: BTreeMap::new(),
 			test_nonce_pub,
 			reported: std::collections::BTreeSet::new(),
 		}
@@ -411,7 +414,7 @@ impl Prop for C12 {
 				// wrong passwords: prefixes, case changes, unicode, long, empty
 				let w = run.rng.idx(nw);
 				let right = run.ex.world.wallets[w].password.clone();
-				let cands = vec![
+				let mut cands = vec![
 					format!("{}x", right),
 					right.to_uppercase() + "A",
 					right.chars().take(right.len().saturating_sub(1)).collect::<String>() + "\u{00fc}",
@@ -419,16 +422,24 @@ impl Prop for C12 {
 					String::from(" "),
 					right.clone(),
 				];
+				// passwords this seed file was saved under earlier (a backup file may
+				// still be encrypted with one of them)
+				for old in self.pw_hist.get(&w).cloned().unwrap_or_default() {
+					if old != right {
+						cands.push(old.clone());
+						cands.push(old);
+					}
+				}
 				let pw = run.rng.pick(&cands).clone();
 				return Some(Step::new(Op::Custom {
 					name: "open_with".into(),
 					args: json!({"w": w, "password": pw}),
 				}));
 			}
-			if run.rng.chance(1, 25) && nw > 0 {
+			if run.rng.chance(1, 14) && nw > 0 {
 				let w = run.rng.idx(nw);
 				return Some(Step::new(Op::Custom {
-					name: "change_password".into(),
+					name: if run.rng.chance(1, 2) { "change_password".into() } else { "recover".into() },
 					args: json!({"w": w, "new": format!("p{}", run.rng.below(100))}),
 				}));
 			}
@@ -439,6 +450,13 @@ impl Prop for C12 {
 	fn after(&mut self, run: &mut Run, step: &Step, out: &StepOut) -> Vec<Violation> {
 		let mut v = vec![];
 		self.gen.feedback(run, step, out);
+		for w in 0..run.ex.world.wallets.len() {
+			let pw = run.ex.world.wallets[w].password.clone();
+			let h = self.pw_hist.entry(w).or_default();
+			if !h.contains(&pw) {
+				h.push(pw);
+			}
+		}
 		// password-change bookkeeping for replays (the custom handler updates the
 		// world's password on success)
 		if let Op::Custom { name, args } = &step.op {
